@@ -55,7 +55,26 @@ func gen(r *vh.Rand, tier string, n int, emit func(vh.Case)) {
 					toks[j] = strconv.Itoa(r.Range(-50, 50))
 				}
 			}
-			c.Ops = append(c.Ops, strings.TrimSpace("jnew "+strings.Join(toks, " ")))
+			if r.Bool() { // JSONIter[[]int]: slice-valued records (a decoder that merges into the previous value shows here)
+				for j := range toks {
+					if toks[j] == "x" {
+						continue
+					}
+					m := r.Intn(5)
+					if m == 0 {
+						toks[j] = "e"
+						continue
+					}
+					el := make([]string, m)
+					for q := range el {
+						el[q] = strconv.Itoa(r.Range(-9, 9))
+					}
+					toks[j] = strings.Join(el, ",")
+				}
+				c.Ops = append(c.Ops, strings.TrimSpace("jlnew "+strings.Join(toks, " ")))
+			} else {
+				c.Ops = append(c.Ops, strings.TrimSpace("jnew "+strings.Join(toks, " ")))
+			}
 			for j, m := 0, r.Intn(12); j < m; j++ {
 				c.Ops = append(c.Ops, vh.Pick(r, []string{"next", "next", "next", "val", "close"}))
 			}
@@ -166,8 +185,10 @@ func (r *rc) Close() error { r.closed++; return nil }
 func exec(c vh.Case, o *vh.Out) {
 	var it iter.Iter[int]
 	var s *src
-	var ji *iter.JSONIter[int]
+	var ji jsonCur
 	var jr *rc
+	var jtoks []string // expected rendering of each record ("x" = malformed)
+	jidx := 0          // number of Next calls that returned true
 	var specOps []string
 	fresh := false
 	var srcVals []int
@@ -194,25 +215,70 @@ func exec(c vh.Case, o *vh.Out) {
 				}
 			}
 			jr = &rc{Reader: strings.NewReader(sb.String())}
-			ji = iter.FromReaderJSON[int](jr)
+			ji = jsonInt{iter.FromReaderJSON[int](jr)}
+			jtoks, jidx = f[1:], 0
 			it = nil
 			o.Kind("json")
 			o.Emit("ok")
+		case "jlnew":
+			var sb strings.Builder
+			jtoks = nil
+			for _, t := range f[1:] {
+				switch t {
+				case "x":
+					sb.WriteString("\"str\" ")
+					jtoks = append(jtoks, "x")
+				case "e":
+					sb.WriteString("[]\n")
+					jtoks = append(jtoks, "[]")
+				default:
+					sb.WriteString("[" + t + "]\n")
+					jtoks = append(jtoks, "["+t+"]")
+				}
+			}
+			jr = &rc{Reader: strings.NewReader(sb.String())}
+			ji = &jsonList{JSONIter: iter.FromReaderJSON[[]int](jr)}
+			jidx = 0
+			it = nil
+			o.Kind("json-list")
+			o.Emit("ok")
 		case "next":
 			if ji != nil {
-				o.Emit("%v", ji.Next())
+				ok := ji.Next()
+				if ok {
+					jidx++
+					// monitor: the i-th yielded record is the i-th encoded record, whatever came before it
+					if v, isErr := ji.Val(); jidx <= len(jtoks) && !isErr && jtoks[jidx-1] != "x" && v != jtoks[jidx-1] {
+						o.Fail("json-law", "record %d decoded as %s, encoded %s", jidx, v, jtoks[jidx-1])
+					}
+					// ... and values handed out earlier must not change afterwards (a consumer such as ReadAll
+					// keeps them): re-render every retained value and compare with what was encoded.
+					if jl, ok := ji.(*jsonList); ok {
+						jl.kept = append(jl.kept, jl.JSONIter.Val().Val)
+						for q, kv := range jl.kept {
+							if q < len(jtoks) && jtoks[q] != "x" && showList(kv) != jtoks[q] {
+								o.Fail("json-law", "record %d, read earlier as %s, now reads %s after %d more records", q+1, jtoks[q], showList(kv), jidx-q-1)
+								break
+							}
+						}
+					}
+					if jidx >= 2 {
+						o.Nontrivial()
+					}
+				}
+				o.Emit("%v", ok)
 			} else {
 				fresh = false
 				o.Emit("%v", it.Next())
 			}
 		case "val":
 			if ji != nil {
-				v := ji.Val()
-				if v.Err != nil {
+				v, isErr := ji.Val()
+				if isErr {
 					o.Kind("json-err")
 					o.Emit("err")
 				} else {
-					o.Emit("%d", v.Val)
+					o.Emit("%s", v)
 				}
 			} else {
 				o.Emit("%d", it.Val())
@@ -260,6 +326,29 @@ func exec(c vh.Case, o *vh.Out) {
 			o.Emit("bad-op")
 		}
 	}
+}
+
+// jsonCur abstracts JSONIter[int] and JSONIter[[]int] for the op interpreter.
+type jsonCur interface {
+	Next() bool
+	Val() (string, bool)
+	Close() error
+}
+type jsonInt struct{ *iter.JSONIter[int] }
+
+func (j jsonInt) Val() (string, bool) {
+	v := j.JSONIter.Val()
+	return strconv.Itoa(v.Val), v.Err != nil
+}
+
+type jsonList struct {
+	*iter.JSONIter[[]int]
+	kept [][]int // every value handed out so far, retained as a consumer would
+}
+
+func (j *jsonList) Val() (string, bool) {
+	v := j.JSONIter.Val()
+	return showList(v.Val), v.Err != nil
 }
 
 func main() { vh.Main(vh.Config{Gen: gen, Exec: exec}) }
